@@ -277,6 +277,8 @@ def run(chk):
                      "#bankdef a { #addr %s, #size 2, #outp 0 }\nl:\n#d8 1\n#d8 l == 0 ? 1 : 2\n" % m_,
                      "#bankdef a { #addr 0, #addr_end %s, #outp 0 }\n#d8 1\n" % m_, "#bankdef a { #bits 16, #addr 0, #size %s, #outp 0 }\n#d16 1\n" % m_,
                      "#ruledef\n{\n    e {x: u64} => x\n}\ne %s\n" % m_, "#ruledef\n{\n    e {x: s64} => x\n}\ne -%s\n" % m_]
+        for sz in ("0x1ffffffffffffffe", "0x1fffffffffffffff", "0xfffffffffffffff"):
+            edge.append("#bankdef a { #addr 0, #size %s, #outp 0x20 }\n#bankdef b { #addr 0, #size 2, #outp 0x40 }\n#bank a\n#d8 0xaa\n#bank b\n#d8 0xbb\n" % sz)
         eops = [fw.asm_op([("main.asm", t)]) for t in edge]
         emodel = fw.run_model(eops, "c03e", timeout=600)
         for i, (t, ml) in enumerate(zip(edge, emodel)):
